@@ -176,30 +176,39 @@ func (r *Reader) Read(a []byte) (n int, err error) {
 		return
 	}
 
-	done, err := r.request(r.offset+r.position, r.offset+r.length)
-	if err != nil {
-		return
-	}
-
-	if done != nil {
-		select {
-		case <-t.Done:
-			r.request(-1, -1)
-			err = ErrTorrentDead
+	for {
+		var done <-chan struct{}
+		done, err = r.request(r.offset+r.position, r.offset+r.length)
+		if err != nil {
 			return
-		case <-r.context.Done():
-			r.request(-1, -1)
-			err = r.context.Err()
-			return
-		case <-done:
 		}
-	}
 
-	if r.position+int64(len(a)) < r.length {
-		n, err = t.Pieces.ReadAt(a, r.offset+r.position)
-	} else {
-		n, err = t.Pieces.ReadAt(a[:r.length-r.position],
-			r.offset+r.position)
+		if done != nil {
+			select {
+			case <-t.Done:
+				r.request(-1, -1)
+				err = ErrTorrentDead
+				return
+			case <-r.context.Done():
+				r.request(-1, -1)
+				err = r.context.Err()
+				return
+			case <-done:
+			}
+		}
+
+		if r.position+int64(len(a)) < r.length {
+			n, err = t.Pieces.ReadAt(a, r.offset+r.position)
+		} else {
+			n, err = t.Pieces.ReadAt(a[:r.length-r.position],
+				r.offset+r.position)
+		}
+		if n > 0 || err != nil || len(a) == 0 {
+			break
+		}
+		// The piece has been discarded since it was completed:
+		// request it again.
+		r.request(-1, -1)
 	}
 	if err == nil && int64(n) == r.length-r.position {
 		err = io.EOF
